@@ -550,9 +550,12 @@ def check_time_average(run, pkg):
     run.ob("R-LOOPDOM", fq, "windows", ok_dom, "every window start is visited", show(L.iter)[:80], witness=None if ok_dom else "windows skipped", loc=fi.loc(L.node), sound=True)
     if is_trunc:
         # floor of a float quotient without tolerance: period = k * interval can come out as k - 1
-        run.ob("R-TRUNC", fq, "window-length", False, "window length is floor(period/interval), exact multiples included",
+        run.ob("R-TRUNC", fq, "window-length:float-truncation", False, "window length is floor(period/interval), exact multiples included",
                f"w = {sp.sstr(gw)}: a float quotient is truncated with no tolerance",
                witness="period 0.3, interval 0.1: 0.3/0.1 = 2.9999999999999996 -> w = 2, property requires 3", loc=fi.loc(), sound=True)
+    elif _not_floor_witness(gw, (P, dt, t1, t0)) is not None:
+        run.ob("R-TRUNC", fq, "window-length:not-floor", False, "window length is floor(period/interval)", f"w = {sp.sstr(gw)[:120]}",
+               witness=_not_floor_witness(gw, (P, dt, t1, t0)), loc=fi.loc(), sound=True)   # exact evaluation of the extracted form at a quotient well inside (k, k+1)
     else:
         tol_forms = []
         run.ob("R-TRUNC", fq, "window-length", None if tr.atoms or True else True, "window length is floor(period/interval), exact multiples included",
@@ -581,6 +584,28 @@ def check_time_average(run, pkg):
                f"middle = {show(mterm)}", witness=bad, loc=loc_of(it, mid_ev[0]), sound=True)   # exact integer evaluation on the enumerated windows
     except NotEvaluable as e:
         run.ob("R-ALG", fq, "middle", None, "reported index is the window's central frame", f"not evaluable: {e}", loc=loc_of(it, mid_ev[0]))
+
+
+def _not_floor_witness(gw, syms):
+    """the extracted window-length form evaluated exactly at quotients well away from integers (no rounding-noise excuse):
+    a value other than floor(q) is a definite difference"""
+    P, dt, t1, t0 = syms
+    if gw.free_symbols - set(syms):
+        return None
+    for per, itv in ((sp.Rational(11, 2), 2), (sp.Rational(15, 2), 2), (sp.Rational(9, 4), 1), (sp.Rational(5, 2), 1), (sp.Rational(7, 2), 1)):
+        try:
+            val = gw.subs({P: per, dt: sp.Rational(1, 100), t0: 0, t1: itv * 100})
+            val = sp.nsimplify(val)
+        except Exception:  # noqa
+            return None
+        if not val.is_number or val.has(sp.Function("x").func) and False:
+            return None
+        if val.is_Integer is not True and not val.is_Rational:
+            return None
+        want = sp.floor(per / itv)
+        if val != want:
+            return f"time_period={float(per)}, frame interval={float(itv)}: period/interval = {float(per / itv)} -> window of {val} frames, floor gives {want}"
+    return None
 
 
 def _tolerant(gw, q):
